@@ -55,8 +55,8 @@ macro_rules! ensure {
     };
 }
 
-/// Per-thread statistics, merged at the end.
-#[derive(Default, Debug)]
+/// Per-worker statistics, merged at the end.
+#[derive(Default, Debug, Serialize, serde::Deserialize)]
 pub struct Stats {
     /// generated cases
     pub cases: u64,
@@ -389,48 +389,17 @@ pub fn run_property(p: &dyn Property, tier: Tier, seed: u64) -> RunOutcome {
         failures.push((case, fl, "sweep".into()));
     }
 
-    // 3. generated cases, one proptest runner per thread
+    // 3. generated cases: one proptest runner per worker. Workers are separate
+    //    processes (the library allocates and frees an 80 MB id table per
+    //    ontology; threads of one process serialise on the address-space lock).
     let threads = n_threads() as u64;
     let n = p.cases(tier);
     let per = n.div_ceil(threads);
-    let results: Vec<(Stats, Option<(Value, Failure)>)> = std::thread::scope(|sc| {
-        let mut hs = Vec::new();
-        for t in 0..threads {
-            let p = &*p;
-            hs.push(
-                std::thread::Builder::new()
-                    .stack_size(64 << 20)
-                    .spawn_scoped(sc, move || {
-                        let mut st = Stats::default();
-                        let r = p.run_generated(tier, thread_seed(seed, p.id(), t), per, &mut st);
-                        (st, r)
-                    })
-                    .expect("spawn"),
-            );
-        }
-        hs.into_iter()
-            .map(|h| match h.join() {
-                Ok(r) => r,
-                Err(payload) => {
-                    let msg = payload
-                        .downcast_ref::<&str>()
-                        .map(|s| s.to_string())
-                        .or_else(|| payload.downcast_ref::<String>().cloned())
-                        .unwrap_or_else(|| "<non-string payload>".into());
-                    (
-                        Stats::default(),
-                        Some((
-                            Value::Null,
-                            Failure {
-                                signature: "harness/thread-panic".into(),
-                                message: format!("worker panicked: {msg}"),
-                            },
-                        )),
-                    )
-                }
-            })
-            .collect()
-    });
+    let results: Vec<(Stats, Option<(Value, Failure)>)> = if std::env::var("VERIF_INPROCESS").is_ok() {
+        run_workers_in_threads(p, tier, seed, threads, per)
+    } else {
+        run_workers_as_processes(p, tier, seed, threads, per)
+    };
     for (st, r) in results {
         total.merge(st);
         if let Some((case, fl)) = r {
@@ -564,6 +533,138 @@ pub fn run_property(p: &dyn Property, tier: Tier, seed: u64) -> RunOutcome {
         return RunOutcome { exit: 2 };
     }
     RunOutcome { exit: 0 }
+}
+
+fn run_workers_in_threads(p: &dyn Property, tier: Tier, seed: u64, threads: u64, per: u64) -> Vec<(Stats, Option<(Value, Failure)>)> {
+    std::thread::scope(|sc| {
+        let mut hs = Vec::new();
+        for t in 0..threads {
+            hs.push(
+                std::thread::Builder::new()
+                    .stack_size(256 << 20)
+                    .spawn_scoped(sc, move || {
+                        let mut st = Stats::default();
+                        let r = p.run_generated(tier, thread_seed(seed, p.id(), t), per, &mut st);
+                        (st, r)
+                    })
+                    .expect("spawn"),
+            );
+        }
+        hs.into_iter()
+            .map(|h| match h.join() {
+                Ok(r) => r,
+                Err(payload) => {
+                    let msg = payload
+                        .downcast_ref::<&str>()
+                        .map(|s| s.to_string())
+                        .or_else(|| payload.downcast_ref::<String>().cloned())
+                        .unwrap_or_else(|| "<non-string payload>".into());
+                    (
+                        Stats::default(),
+                        Some((
+                            Value::Null,
+                            Failure {
+                                signature: "harness/thread-panic".into(),
+                                message: format!("worker panicked: {msg}"),
+                            },
+                        )),
+                    )
+                }
+            })
+            .collect()
+    })
+}
+
+/// Output of one worker process (JSON on stdout).
+#[derive(Serialize, serde::Deserialize)]
+pub struct WorkerOut {
+    pub stats: Stats,
+    pub failure: Option<(Value, String, String)>,
+}
+
+/// Entry point of `hpo_verif --worker <ID> <tier> <seed> <index> <cases>`.
+pub fn worker_main(p: &dyn Property, tier: Tier, seed: u64, index: u64, per: u64) -> i32 {
+    let out = std::thread::scope(|sc| {
+        std::thread::Builder::new()
+            .stack_size(256 << 20)
+            .spawn_scoped(sc, move || {
+                let mut st = Stats::default();
+                let r = p.run_generated(tier, thread_seed(seed, p.id(), index), per, &mut st);
+                (st, r)
+            })
+            .expect("spawn")
+            .join()
+    });
+    let out = match out {
+        Ok((stats, r)) => WorkerOut {
+            stats,
+            failure: r.map(|(c, f)| (c, f.signature, f.message)),
+        },
+        Err(payload) => {
+            let msg = payload
+                .downcast_ref::<&str>()
+                .map(|s| s.to_string())
+                .or_else(|| payload.downcast_ref::<String>().cloned())
+                .unwrap_or_else(|| "<non-string payload>".into());
+            WorkerOut {
+                stats: Stats::default(),
+                failure: Some((Value::Null, "harness/thread-panic".into(), format!("worker panicked: {msg}"))),
+            }
+        }
+    };
+    println!("{}", serde_json::to_string(&out).unwrap());
+    0
+}
+
+fn run_workers_as_processes(p: &dyn Property, tier: Tier, seed: u64, threads: u64, per: u64) -> Vec<(Stats, Option<(Value, Failure)>)> {
+    let exe = std::env::current_exe().expect("current_exe");
+    let mut children = Vec::new();
+    for t in 0..threads {
+        let child = std::process::Command::new(&exe)
+            .args(["--worker", p.id(), tier.name(), &seed.to_string(), &t.to_string(), &per.to_string()])
+            .stdin(std::process::Stdio::null())
+            .stdout(std::process::Stdio::piped())
+            .stderr(std::process::Stdio::inherit())
+            .spawn();
+        children.push(child);
+    }
+    let mut res = Vec::new();
+    for (t, child) in children.into_iter().enumerate() {
+        let harness = |m: String| {
+            (
+                Stats::default(),
+                Some((
+                    Value::Null,
+                    Failure {
+                        signature: "harness/worker".into(),
+                        message: m,
+                    },
+                )),
+            )
+        };
+        let child = match child {
+            Ok(c) => c,
+            Err(e) => {
+                res.push(harness(format!("cannot spawn worker {t}: {e}")));
+                continue;
+            }
+        };
+        match child.wait_with_output() {
+            Ok(out) if out.status.success() => {
+                let text = String::from_utf8_lossy(&out.stdout);
+                match text.lines().rev().find(|l| l.starts_with('{')).map(serde_json::from_str::<WorkerOut>) {
+                    Some(Ok(w)) => res.push((
+                        w.stats,
+                        w.failure.map(|(c, signature, message)| (c, Failure { signature, message })),
+                    )),
+                    _ => res.push(harness(format!("worker {t}: unreadable output"))),
+                }
+            }
+            Ok(out) => res.push(harness(format!("worker {t} ended with {}", out.status))),
+            Err(e) => res.push(harness(format!("worker {t}: {e}"))),
+        }
+    }
+    res
 }
 
 /// Replays one file (a violation file or a committed replay file).
